@@ -100,7 +100,7 @@ func (c07) FaultKinds() []string {
 	return []string{"sweep_runs_enumerating_every_schedule_point_of_a_victim_operation", "F3_preemption_fired", "F3_reentrant_at_header", "F3_reentrant_at_writeheader", "F3_reentrant_at_handler", "F1_rejected_reconfigure", "F2_restore"}
 }
 func (c07) Probes() []string {
-	ps := []string{"req_overlapped_1_state_change", "req_overlapped_2_state_changes", "passthrough_flip_during_request", "rejected_reconfigure_overlapped_request", "histories_checked", "porcupine_ok"}
+	ps := []string{"req_overlapped_1_state_change", "req_overlapped_2_state_changes", "passthrough_flip_during_request", "rejected_reconfigure_overlapped_request", "histories_checked", "porcupine_ok", "sequential_reference_checked_against_fresh_twins"}
 	if os.Getenv("VERIF_LOCK_SEAMS") != "0" { // a tree without lock operations (atomics only) cannot reach these
 		ps = append(ps, "acquire_parked", "writer_preempted_in_critical_section", "preempt_between_snapshot_and_dispatch")
 	}
@@ -119,6 +119,57 @@ func (c07) ProbeNeeds() map[string]string {
 
 func varyCfg(r *R, a Cfg) Cfg {
 	b := a.clone()
+	if r.P(0.3) {
+		// the SMALLEST difference: one aspect, everything else equal - where "nothing
+		// changed, skip the swap" shortcuts go wrong
+		switch r.Intn(7) {
+		case 0: // Authorization next to the wildcard
+			hasStar, hasAuth := false, -1
+			for i, h := range b.RequestHeaders {
+				hasStar = hasStar || h == "*"
+				if strings.EqualFold(h, "authorization") {
+					hasAuth = i
+				}
+			}
+			switch {
+			case hasStar && hasAuth >= 0:
+				b.RequestHeaders = append(b.RequestHeaders[:hasAuth:hasAuth], b.RequestHeaders[hasAuth+1:]...)
+			case hasStar:
+				b.RequestHeaders = append(b.RequestHeaders, "Authorization")
+			default:
+				b.RequestHeaders = append(b.RequestHeaders, "X-One-More")
+			}
+		case 1:
+			b.MaxAge = pick(r, []int{a.MaxAge + 1, 0, -1, 5})
+		case 2:
+			b.Status = pick(r, []int{0, 200, 204, 299})
+		case 3:
+			if !(len(b.Methods) == 1 && b.Methods[0] == "*") {
+				b.Methods = append(b.Methods, "ONEMORE")
+			}
+		case 4:
+			if len(b.ResponseHeaders) > 0 && b.ResponseHeaders[0] != "*" {
+				b.ResponseHeaders = append(b.ResponseHeaders, "X-One-More-Exposed")
+			} else if !b.Credentialed {
+				b.ResponseHeaders = []string{"X-Only-Exposed"}
+			}
+		case 5:
+			if len(b.Origins) > 0 && b.Origins[0] != "*" {
+				b.Origins = append(b.Origins, "https://one-more.example.org")
+			}
+		case 6:
+			if !b.PNANoCors && !b.PNA {
+				star := false
+				for _, o := range b.Origins {
+					star = star || o == "*"
+				}
+				if !star {
+					b.PNA = true
+				}
+			}
+		}
+		return b
+	}
 	fresh := genCfg(r)
 	if r.P(0.6) {
 		b.Methods = fresh.Methods
@@ -885,6 +936,85 @@ type refModel struct {
 	mws   map[string]*cors.Middleware // mutator sequence -> sequential middleware
 	srvs  map[string]*mwServer
 	cache map[string]string
+	// seqMismatch: the sequential reference itself disagrees with a FRESH middleware of the
+	// state the documentation says the mutator sequence leads to (first finding)
+	seqMismatch string
+	twinChecked map[string]bool
+}
+
+// docState folds a mutator sequence with the documented state machine (creation: the
+// plan's initial state; SetDebug(b) sets b iff configured; Reconfigure(nil): passthrough,
+// debug off; an ACCEPTED Reconfigure(c) installs c and keeps debug; a rejected one changes
+// nothing). Acceptance is decided by NewMiddleware(c), not by Reconfigure.
+func (r *refModel) docState(state string) (cfg *Cfg, debug bool) {
+	if r.p.InitCfg >= 0 && r.p.InitCfg < len(r.p.Cfgs) {
+		c := r.p.Cfgs[r.p.InitCfg]
+		cfg, debug = &c, r.p.InitDebug
+	}
+	if state == "" {
+		return
+	}
+	for _, op := range strings.Split(strings.TrimSuffix(state, "\x1e"), "\x1e") {
+		kind, input, _ := strings.Cut(op, "\x1f")
+		switch kind {
+		case "setdebug":
+			if cfg != nil {
+				debug = input == "true"
+			}
+		case "reconf":
+			if input == "nil" {
+				cfg, debug = nil, false
+				continue
+			}
+			var c Cfg
+			if json.Unmarshal([]byte(input), &c) != nil {
+				continue
+			}
+			if m, err, pan := newMW(c); m != nil && err == nil && pan == nil {
+				cfg = &c
+			}
+		}
+	}
+	return
+}
+
+// twinCheck compares the sequential reference at `state` with a fresh middleware
+// in docState(state), over the run's requests and Config(): a Reconfigure that is
+// silently dropped, or that leaves anything of the previous configuration behind,
+// makes every later response one of a state that was never current.
+func (r *refModel) twinCheck(state string) {
+	if r.seqMismatch != "" || r.twinChecked[state] {
+		return
+	}
+	r.twinChecked[state] = true
+	cfg, debug := r.docState(state)
+	twin := new(cors.Middleware)
+	if cfg != nil {
+		m, err, pan := newMW(*cfg)
+		if m == nil || err != nil || pan != nil {
+			return
+		}
+		m.SetDebug(debug)
+		twin = m
+	}
+	ref := r.at(state)
+	if a, b := cfgKey(fromConfig(ref.Config())), cfgKey(fromConfig(twin.Config())); a != b {
+		r.seqMismatch = fmt.Sprintf("after the mutator sequence %q, applied sequentially, Config() is %s; a fresh middleware in the documented resulting state (debug=%v) reports %s", strings.ReplaceAll(strings.ReplaceAll(state, "\x1e", " ; "), "\x1f", " "), a, debug, b)
+		return
+	}
+	ts := newServer(twin.Wrap)
+	keys := make([]string, 0, len(reqTable))
+	for k := range reqTable {
+		keys = append(keys, k)
+	}
+	sort.Strings(keys)
+	for _, k := range keys {
+		q := reqTable[k]
+		if a, b := r.srvs[state].do(q).String(), ts.do(q).String(); a != b {
+			r.seqMismatch = fmt.Sprintf("after the mutator sequence %q, applied sequentially, %s is answered %s; a fresh middleware in the documented resulting state (debug=%v) answers %s", strings.ReplaceAll(strings.ReplaceAll(state, "\x1e", " ; "), "\x1f", " "), q, a, debug, b)
+			return
+		}
+	}
 }
 
 func (r *refModel) at(state string) *cors.Middleware {
@@ -967,6 +1097,7 @@ func (r *refModel) step(state string, h histOp) (bool, string) {
 			r.mws[ns] = m
 			r.srvs[ns] = newServer(m.Wrap)
 			r.cache[key] = want
+			r.twinCheck(ns)
 		}
 		return want == h.Output, ns
 	}
@@ -1042,7 +1173,7 @@ func (e c07) Exec(plan any, c *Ctx) *Violation {
 			}
 		}
 	}
-	ref := &refModel{p: p, mws: map[string]*cors.Middleware{}, srvs: map[string]*mwServer{}, cache: map[string]string{}}
+	ref := &refModel{p: p, mws: map[string]*cors.Middleware{}, srvs: map[string]*mwServer{}, cache: map[string]string{}, twinChecked: map[string]bool{}}
 	model := porcupine.Model{
 		Init: func() interface{} { return "" },
 		Step: func(state, input, output interface{}) (bool, interface{}) {
@@ -1058,6 +1189,11 @@ func (e c07) Exec(plan any, c *Ctx) *Violation {
 	}
 	c.hit("histories_checked")
 	res := porcupine.CheckOperationsTimeout(model, ops, 20*time.Second)
+	if ref.seqMismatch != "" {
+		c.hit("sequential_reference_vs_fresh_twin_mismatch")
+		return &Violation{Class: "state-never-current", Key: "sequential", Detail: "the state the calls lead to is not the state the documentation says (so every later response is that of a state that was never current): " + ref.seqMismatch}
+	}
+	c.hit("sequential_reference_checked_against_fresh_twins")
 	switch res {
 	case porcupine.Ok:
 		c.hit("porcupine_ok")
